@@ -28,8 +28,13 @@ OUT = '/verif/out/c07'
 OWNER, OWNER2 = 'o', 'q'
 
 
+def so(s):
+    """a study token is 'study_id' (owner OWNER) or 'owner|study_id'."""
+    return tuple(s.split('|', 1)) if '|' in s else (OWNER, s)
+
+
 def sname(s):
-    return 'owners/%s/studies/%s' % (OWNER, s)
+    return 'owners/%s/studies/%s' % so(s)
 
 
 def tname(s, t):
@@ -37,11 +42,11 @@ def tname(s, t):
 
 
 def opname(s, c, n):
-    return 'owners/%s/operations/suggestion/%s/%s/%s' % (OWNER, s, c, n)
+    return 'owners/%s/operations/suggestion/%s/%s/%s' % (so(s) + (c, n))
 
 
 def eopname(s, t):
-    return 'owners/%s/operations/earlystopping/%s/%s' % (OWNER, s, t)
+    return 'owners/%s/operations/earlystopping/%s/%s' % (so(s) + (t,))
 
 
 # ------------------------------------------------------------------------------------------ the executable contract
@@ -77,7 +82,7 @@ class Model:
     def create_study(self, s, blob):
         if s in self.studies:
             raise Err(*EXISTS)
-        self.owners.add(OWNER)
+        self.owners.add(so(s)[0])
         self.studies[s] = blob
         self.trials[s] = collections.OrderedDict()
         if 'sql_delete_keeps_ops' in self.dev:
@@ -112,7 +117,7 @@ class Model:
     def list_studies(self, owner):
         if owner not in self.owners:
             raise Err(*NOTFOUND)
-        return list(self.studies.values()) if owner == OWNER else []
+        return [b for s, b in self.studies.items() if so(s)[0] == owner]
 
     # -- trials
     def create_trial(self, s, t, blob):
@@ -559,9 +564,11 @@ def method_of(op):
 STUDIES, TRIALS, CLIENTS = ['s1', 's2'], [1, 2, 3], ['c1', 'c2']
 
 
-def dump_ops():
-    ops = [['list_studies', OWNER], ['list_studies', OWNER2]]
-    for s in STUDIES:
+def dump_ops(studies=None, owners=None, trials=None, clients=None):
+    studies, owners = studies or STUDIES, owners or [OWNER, OWNER2]
+    TRIALS, CLIENTS = trials or globals()['TRIALS'], clients or globals()['CLIENTS']
+    ops = [['list_studies', o] for o in owners]
+    for s in studies:
         ops += [['load_study', s], ['list_trials', s], ['max_trial_id', s]]
         for c in CLIENTS:
             ops += [['list_sops', s, c, False], ['max_sop', s, c]]
@@ -571,6 +578,28 @@ def dump_ops():
 
 
 DUMP = dump_ops()
+_STD = (set(STUDIES), {OWNER, OWNER2}, set(TRIALS), set(CLIENTS))
+
+
+def dump_for(seq):
+    """the read-back covers every study / owner / trial id / client the sequence mentions (and the standard universe)."""
+    st, ow, tr, cl = set(), set(), set(), set()
+    for op in seq:
+        k = op[0]
+        if k == 'raw':
+            continue
+        if k == 'list_studies':
+            ow.add(op[1])
+            continue
+        st.add(op[1])
+        ow.add(so(op[1])[0])
+        if k in ('create_trial', 'get_trial', 'update_trial', 'delete_trial', 'create_eop', 'get_eop', 'update_eop'):
+            tr.add(op[2])
+        if k in ('create_sop_next', 'create_sop', 'get_sop', 'update_sop', 'list_sops', 'max_sop'):
+            cl.add(op[2])
+    if st <= _STD[0] and ow <= _STD[1] and tr <= _STD[2] and cl <= _STD[3]:
+        return DUMP
+    return dump_ops(STUDIES + sorted(st - _STD[0]), [OWNER, OWNER2] + sorted(ow - _STD[1]), TRIALS + sorted(tr - _STD[2]), CLIENTS + sorted(cl - _STD[3]))
 
 
 def agree(model_out, real_out):
@@ -595,7 +624,7 @@ def run_model(seq, dev=()):
         if o[0] == 'unspecified':
             stop = i
             break
-    dump = [apply_model(model, op) for op in DUMP] if stop is None else None
+    dump = [apply_model(model, op) for op in dump_for(seq)] if stop is None else None
     return outs, dump, stop
 
 
@@ -607,8 +636,8 @@ def run_backend(kind, seq, upto, probe='both', only=None):
     outs = [apply_backend(ds, op, mode(j)) for j, op in enumerate(seq[:upto])]
     if upto == len(seq):
         if probed_dump(seq):
-            outs += [apply_backend(ds, op, mode(upto + j)) for j, op in enumerate(DUMP)]
-        outs += [apply_backend(ds, op, 'none') for op in DUMP]
+            outs += [apply_backend(ds, op, mode(upto + j)) for j, op in enumerate(dump_for(seq))]
+        outs += [apply_backend(ds, op, 'none') for op in dump_for(seq)]
     return outs
 
 
@@ -622,7 +651,7 @@ def probed_dump(seq):
 
 
 def first_divergence(seq, m_all, outs):
-    ext = list(seq) + (DUMP + DUMP if probed_dump(seq) else DUMP)
+    ext = list(seq) + (dump_for(seq) + dump_for(seq) if probed_dump(seq) else dump_for(seq))
     for i, (a, b) in enumerate(zip(m_all, outs)):
         if not agree(a, b):
             if i < len(seq):
@@ -683,7 +712,7 @@ def check_sequence(seq, backends):
             key = (b, d['kind'])
             _BUDGET[key] = _BUDGET.get(key, 0) + 1
             if _BUDGET[key] <= 4:      # locating the leaking call costs one run per call: only for the first few
-                ext = list(seq[:upto]) + (DUMP if (upto == len(seq) and probed_dump(seq)) else [])
+                ext = list(seq[:upto]) + (dump_for(seq) if (upto == len(seq) and probed_dump(seq)) else [])
                 for i in range(len(ext)):
                     if div(run_backend(b, seq, upto, 'arg' if arg else 'result', only=i)) is not None:
                         d['method'] = method_of(ext[i])
@@ -737,6 +766,20 @@ TARGETED = [
     # RAM update_*_operation on a missing operation (recorded finding)
     [['create_study', 's1', 0], ['create_sop_next', 's1', 'c1'], ['update_sop', 's1', 'c1', 2, True], ['list_sops', 's1', 'c1', False]],
     [['create_study', 's1', 0], ['update_eop', 's1', 1, 1], ['get_eop', 's1', 1]],
+    # adversarial study names: '_' and '%' (SQL LIKE wildcards), names differing in letter case only, names that are prefixes
+    # of each other, the same study name under two owners -- every table must be addressed by key equality
+] + [
+    sum([[['create_study', s, 0], ['create_trial', s, 1, 0], ['create_trial', s, 2, 0], ['create_sop_next', s, 'c1'], ['create_eop', s, 1]]
+         for s in names], []) + tail
+    for names in (['run_1', 'run-1', 'runX1', 'RUN_1', 'run_10', 'run', 'p|run_1'], ['a%', 'ab', 'a%c', 'abc', 'A%', 'p|a%'])
+    for tail in (
+        [['delete_study', names[0]]],
+        [['delete_trial', names[0], 1], ['update_metadata', names[0], [['m', 'x']], [['2', 'k', 'v']]], ['update_trial', names[0], 2, 1],
+         ['update_sop', names[0], 'c1', 1, True], ['update_eop', names[0], 1, 1], ['update_study', names[0], 1], ['list_trials', names[0]],
+         ['list_studies', 'o'], ['list_studies', 'p']],
+        [['delete_study', names[-1]], ['delete_study', names[3]], ['create_study', names[3], 1], ['create_sop_next', names[3], 'c1']],
+    )
+] + [
     # one metadata update naming several trials in an order that is neither the order of their names nor of their ids,
     # read back afterwards (each named trial gets exactly its own group, every other trial is untouched)
     [['create_study', 's1', 0], ['create_trial', 's1', 1, 0], ['create_trial', 's1', 2, 0], ['create_trial', 's1', 3, 0],
